@@ -59,6 +59,20 @@ def _specs(tier, rng):
     vals = [c for c in vals if 0 <= c < LIMIT]
     for i in range(0, len(vals), 32768):
         specs.append({"kind": "rows", "values": vals[i:i + 32768]})
+    # the hash is a function of the challenge alone: descending sweeps, neighbours visited back and forth, sign-mirrored dividends
+    # (challenges at equal distance on either side of 11,092,003) and repeats - orders an ascending table never produces
+    order = []
+    for start in (0, 600, 11092004 - 3000, 11092110 - 2500, 11092110, 16194276 - 5000):
+        lo = max(0, start)
+        order += list(range(min(lo + 5000, LIMIT) - 1, lo - 1, -1))
+    for c in [rng.randrange(1, LIMIT - 1) for _ in range(4000)]:
+        order += [c, c - 1, c, c + 1, c]
+    for d in list(range(1, 1400)) + [rng.randrange(1, 5_000_000) for _ in range(3000)]:
+        for c in (11092003 + d, 11092003 - d, 11092003 + d):
+            if 0 <= c < LIMIT:
+                order.append(c)
+    for i in range(0, len(order), 32768):
+        specs.append({"kind": "rows", "values": order[i:i + 32768]})
     return specs
 
 
